@@ -35,9 +35,13 @@ def gen_doc(rng, path):
         # (libsbml keeps only one of initialAmount / initialConcentration: setting one unsets the other,
         #  so "both present" cannot occur in a valid Level 3 document; mode 3 leaves both unset)
         desc["species"].append({"id": s, "amount": amount, "conc": conc})
-    for g in ["k", "k2", "q", "w"]:
+    # sometimes a global parameter carries one of the names bioscrape itself gives a meaning to: in the document it is a
+    # parameter like any other
+    keyword = rng.choice([None, None, "t", "volume"])
+    for g in ["k", "k2", "q", "w"] + ([keyword] if keyword else []):
         p = m.createParameter(); p.setId(g); p.setConstant(g not in ("q", "w"))
-        v = rng.choice([0.5, 1.0, 2.0, 3.0]); p.setValue(v)
+        v = rng.choice([0.5, 1.0, 2.0, 3.0]) if g not in ("t", "volume") else rng.choice([2.0, 3.0])
+        p.setValue(v)
         desc["globals"][g] = v
     nrx = rng.randint(1, 4)
     for j in range(nrx):
@@ -58,6 +62,8 @@ def gen_doc(rng, path):
         law = rng.choice(LAWS)
         s0 = rng.choice(list(reac) or SP); s1 = rng.choice(SP)
         formula = law.format(k="k", k2="k2", s0=s0, s1=s1, m=mods[0] if mods else s1)
+        if keyword and rng.chance(1, 2):
+            formula = "(" + formula + ") * " + keyword if rng.chance(1, 2) else "(" + formula + ") / (1 + " + keyword + ")"
         kl = r.createKineticLaw()
         locals_ = {}
         lm = rng.below(4)           # local parameters: none / shadow a global / shadow and a private one
